@@ -17,7 +17,7 @@ CHECKS = {
     "C14": ("harness.checks.authfam", "C14"),
     "C07": ("harness.checks.kvfam", "C07"),
     "C10": ("harness.checks.kvfam", "C10"),
-    "C03": [("harness.checks.storefam", "C03"), ("harness.checks.relayfam", "C03")],
+    "C03": [("harness.checks.storefam", "C03"), ("harness.checks.relayfam", "C03"), ("harness.checks.bulkload", "C03")],
     "C20": ("harness.checks.c20", "C20"),
     "C18": [("harness.checks.c18", "C18"), ("harness.checks.relayfam", "C18")],
     "C13": ("harness.checks.relayfam", "C13"),
